@@ -249,8 +249,27 @@ def narrow_arithmetic(ctx, rule):
                 ctx.fail(rule, "narrow:%s:%s" % (b.id, t["msg"].get("op")), where(b, bi), "`%s` arithmetic on `%s` in %s: counts of grams / "
                          "words / characters exceed this range for ordinary long inputs" % (t["msg"].get("op"), ty, b.id),
                          {"witness": "a title with 256 distinct grams searched by its full text"}, kind="S")
+    # narrowing casts of counts / lengths / ratings to 8 or 16 bits truncate silently
+    width = {"u8": 8, "i8": 8, "u16": 16, "i16": 16, "u32": 32, "i32": 32, "u64": 64, "i64": 64, "usize": 64, "isize": 64, "u128": 128, "i128": 128}
+    for b in ctx.facts.fns():
+        if b.id not in _reach(ctx) or _skip_body(b):
+            continue
+        for bi, si, st in b.iter_stmts():
+            if st["k"] != "assign" or st["rv"]["k"] != "cast" or b.blocks[bi]["cleanup"] or st["rv"].get("kind") not in ("IntToInt", "FloatToInt"):
+                continue
+            if (st.get("loc") or {}).get("exp"):
+                continue
+            op = st["rv"]["op"]
+            pl = op.get("copy") or op.get("move")
+            src = (pl or {}).get("ty") or op.get("const", {}).get("ty", "")
+            dst = st["rv"].get("ty", "")
+            if width.get(dst, 64) <= 16 and (width.get(src, 64) > width.get(dst, 64) or st["rv"]["kind"] == "FloatToInt") and "const" not in op:
+                n += 1
+                ctx.fail(rule, "narrowing-cast:%s:%s->%s" % (b.id, src, dst), where(b, bi, st), "`%s as %s` in %s truncates counts / lengths / "
+                         "ratings beyond %d bits silently (a result then depends on integer wrap-around)" % (src, dst, b.id, width[dst]),
+                         {"witness": "a value of 256 (65536) or more"}, kind="S")
     if n == 0:
-        ctx.ok(rule, "narrow-arithmetic", "-", "no checked arithmetic on 8/16-bit integers on the reachable paths", kind="S")
+        ctx.ok(rule, "narrow-arithmetic", "-", "no checked arithmetic on, and no narrowing cast to, 8/16-bit integers on the reachable paths", kind="S")
 
 
 def R19_bufs(ctx, b):
